@@ -428,7 +428,7 @@ class SigmaRuleBase:
             "title": self.title,
         }
         # Convert to string where possible
-        for field in ("id", "status", "level", "author", "description", "name"):
+        for field in ("id", "status", "level", "author", "description", "name", "license"):
             if (s := self.__getattribute__(field)) is not None:
                 d[field] = str(s)
 
@@ -440,6 +440,10 @@ class SigmaRuleBase:
         # the special cases
         if len(self.tags) > 0:
             d["tags"] = [str(tag) for tag in self.tags]
+        if self.related is not None:
+            d["related"] = [
+                {"id": str(item.id), "type": str(item.type)} for item in self.related.related
+            ]
         # dates are written in the form the loader accepts (a datetime object, as YAML makes of an
         # unquoted timestamp, is reduced to its date)
         if self.date is not None:
